@@ -51,3 +51,23 @@ Theorem source_lj_symmetric_like : forall a b : lj NumR,
   lsigma NumR a = lsigma NumR b -> leps NumR a = leps NumR b -> lcut NumR a = lcut NumR b ->
   gen_lj_energy NumR rpowi a b = gen_lj_energy NumR rpowi b a.
 Proof. intros a b H1 H2 H3. rewrite !lj_energy_is_source. exact (lj_symmetric_like a b H1 H2 H3). Qed.
+
+(* ------------------------------------------------------------------ *)
+(* C01: the shell count AS COMPUTED BY THE SOURCE's formula suffices: an image further away in cell indices than
+   ceil(2 R / (sin(angle) min(a, b))) is further than 2 R from every copy in the cell *)
+From PV Require Import proofs.PackingFacts.
+
+Theorem source_shell_count_suffices : forall (st : pstate NumR) (fxi fyi fxj fyj : R) (n m : Z),
+  wf_state st ->
+  -1/2 <= fxi < 1/2 -> -1/2 <= fyi < 1/2 -> -1/2 <= fxj < 1/2 -> -1/2 <= fyj < 1/2 ->
+  (gen_shells NumR st < Z.abs n \/ gen_shells NumR st < Z.abs m)%Z ->
+  forall x1 y1 x2 y2 : R,
+  to_cartesian NumR (p_cell NumR st) (fxi, fyi) = (x1, y1) ->
+  to_cartesian NumR (p_cell NumR st) (fxj + IZR n, fyj + IZR m) = (x2, y2) ->
+  gen_radius_sq NumR st < (x1 - x2) * (x1 - x2) + (y1 - y2) * (y1 - y2).
+Proof.
+  intros st fxi fyi fxj fyj n m Hwf Xi Yi Xj Yj Hout x1 y1 x2 y2 E1 E2.
+  rewrite shells_is_source in Hout. rewrite radius_sq_is_source.
+  pose proof (outside_shells_is_far st fxi fyi fxj fyj n m Hwf Xi Yi Xj Yj Hout x1 y1 x2 y2 E1 E2) as H.
+  unfold sq. cbn [nmul NumR n2 nofZ]. exact H.
+Qed.
